@@ -71,6 +71,9 @@ class EvaluationMapper(EvaluationMapperBase):
             return self.context[expr.name]
         elif expr.name in self.functions:
             return self.functions[expr.name]
+        else:
+            # raises UnknownVariableError
+            return super().map_variable(expr)
 
     def map_generic_call(self, function_name, parameters, kw_parameters):
         if function_name in self.functions:
